@@ -187,7 +187,7 @@ func main() {
 	r.Rule("fault enumeration: from states reached by random prefixes, EVERY mutating operation instance is first run with its k-th database write (Put / Delete / CreateBucket* / DeleteNestedBucket / NextSequence / cursor delete, counted per transaction by the vdb wrapper) failing, for every k = 1..W until the operation runs fault-free. Per injected fault: the operation must return an error (no swallowed write error), and after the enclosing transaction rolled back the complete query surface must equal the one before (wtxmgr: balance grid, unspent, watch set, unmined set, TxDetails of every universe tx, per-block ranges, leases; waddrmgr: the C08 battery on the running manager, plus running-vs-restarted). The final fault-free retry must succeed like a fault-free twin (same success/failure; for waddrmgr the post-state battery must equal that of a fresh manager on a copy that ran the operation without faults; returned addresses must be the oracle's). Operations: wtxmgr InsertTx mined/unmined (+AddCredit), Rollback, RemoveUnminedTx, LockOutput, UnlockOutput, DeleteExpiredLockedOutputs; waddrmgr Next*/Extend*, NewAccount, NewAccountWatchingOnly, RenameAccount, ImportPrivateKey, ImportPublicKey, ImportScript/WitnessScript/TaprootScript, MarkUsed, SetSyncedTo, ChangePassphrase(pub/priv), NewScopedKeyManager, ConvertToWatchingOnly; wallet NewAddress, NewChangeAddress, LeaseOutput, ReleaseOutput, relevant-transaction and block notifications (a failed notification is retried by redelivery). Non-trivial = history with at least 5 injected faults; distinct = distinct event/op sequences.")
 	r.Trusted("vdb wrapper counts and fails writes at the walletdb interface boundary", "walletdb/bdb rollback (C11)")
 	r.Assume("the would-be address of a failed issuing call (O-4) and Birthday() (O-5) are outside the compared surface")
-	dir, _ := os.MkdirTemp("", "c10")
+	dir := r.TempDir("c10")
 	defer os.RemoveAll(dir)
 	lcfg := ledger.Config{MinSteps: 12, MaxSteps: r.N(30, 60), FaultSweep: true, Balance: true, Details: true, Leases: true}
 	r.Parallel("wtxmgr", r.N(50, 1200), evid.Workers(), func(i int, cs int64) {
